@@ -1,5 +1,66 @@
-import Rtcm.Model.Names
-import Rtcm.Model.Socket
-import Rtcm.Gen.Tables
+import Rtcm.Lemmas.ReaderFile
+import Rtcm.Lemmas.Message
+/-
+  C01 — the reader delivers only intact, exactly-delimited RTCM3 frames.
+  Streams are file-like with an *arbitrary* schedule of short and empty reads (`FStream.sched`):
+  each `read(n)` may return all `n` bytes, fewer, or none.  Noise, foreign protocols, damaged or
+  truncated frames and false sync bytes are just bytes of `data`: the theorems quantify over every
+  byte string.
+  (Socket-backed streams: `SocketWrapper.read` returns `n` bytes or none — C11 — which is the
+  special case of schedules with only full and empty reads; the correspondence run exercises the
+  reader over sockets with timeouts.)
+-/
 namespace Rtcm
+
+/-- Successive returned frames are non-overlapping contiguous slices of the input, in stream
+    order: the input is `gap₀ ++ raw₁ ++ gap₁ ++ raw₂ ++ …` — for every input, every error mode,
+    every placement of short / empty reads, with or without resuming after a raise. -/
+theorem C01_contiguous_slices_in_order (T : Tables) (o : Opts) (resume : Bool) (data : Bytes)
+    (sched : List (Option Nat)) :
+    Sliced data ((frames (run fileOps T o resume ⟨data, sched⟩)).map (·.1)) :=
+  (run_file T o resume ⟨data, sched⟩).1
+
+/-- Every returned raw frame is a well-formed RTCM3 frame: preamble 0xD3, six zero bits, a length
+    field equal to the enclosed payload size (so `len = 6 + size`). -/
+theorem C01_well_formed (T : Tables) (o : Opts) (resume : Bool) (data : Bytes) (sched : List (Option Nat))
+    (raw : Bytes) (p : Option Msg) (h : (raw, p) ∈ frames (run fileOps T o resume ⟨data, sched⟩)) :
+    ∃ b0 b1 b2, raw[0]? = some b0 ∧ raw[1]? = some b1 ∧ raw[2]? = some b2
+      ∧ b0.toNat = 0xD3 ∧ b1.toNat / 4 = 0 ∧ raw.length = 6 + (b1.toNat * 256 + b2.toNat) := by
+  have hok := (run_file T o resume ⟨data, sched⟩).2 (raw, p) h
+  obtain ⟨b0, h0, hb0⟩ := hok.preamble
+  obtain ⟨b1, h1, hb1⟩ := hok.reserved
+  obtain ⟨b1', b2, h1', h2, hl⟩ := hok.len
+  have : b1' = b1 := by rw [h1] at h1'; injection h1' with e; exact e.symm
+  subst this
+  exact ⟨b0, b1', b2, h0, h1, h2, hb0, hb1, hl⟩
+
+/-- With checksum validation on, every returned pair has a correct CRC-24Q trailer (the CRC of the
+    whole slice is zero), and the parsed message's payload and message number are exactly the ones
+    carried by that slice. -/
+theorem C01_crc_and_payload (T : Tables) (o : Opts) (resume : Bool) (data : Bytes) (sched : List (Option Nat))
+    (hparsed : o.parsed = true) (hval : o.validate &&& T.valcksum ≠ 0)
+    (raw : Bytes) (p : Option Msg) (h : (raw, p) ∈ frames (run fileOps T o resume ⟨data, sched⟩)) :
+    ∃ m, p = some m ∧ calcCrc24q raw = 0
+      ∧ m.payload = (raw.drop 3).take (raw.length - 6)
+      ∧ identity m.payload = .ok m.id := by
+  have hok := (run_file T o resume ⟨data, sched⟩).2 (raw, p) h
+  obtain ⟨m, hp, hparse⟩ := hok.parsedOn hparsed
+  obtain ⟨h1, h2, h3⟩ := parse_ok T raw o.validate o.label m hparse
+  refine ⟨m, hp, h1 hval, ?_, ?_⟩
+  · rw [h2]; congr 1
+  · rw [h2]; exact h3
+
+/-- without parsing, no parsed object is attached (raw frames only) -/
+theorem C01_unparsed (T : Tables) (o : Opts) (resume : Bool) (data : Bytes) (sched : List (Option Nat))
+    (hparsed : o.parsed = false)
+    (raw : Bytes) (p : Option Msg) (h : (raw, p) ∈ frames (run fileOps T o resume ⟨data, sched⟩)) : p = none :=
+  ((run_file T o resume ⟨data, sched⟩).2 (raw, p) h).parsedOff hparsed
+
+/-- non-vacuity of `Sliced`: two frames with noise between them -/
+example : Sliced [9, 1, 2, 8, 8, 3, 4, 7] [[1, 2], [3, 4]] := by
+  have := Sliced.cons [9] [1, 2] [8, 8, 3, 4, 7] [[3, 4]] (by
+    have := Sliced.cons [8, 8] [3, 4] [7] [] (Sliced.nil _)
+    simpa using this)
+  simpa using this
+
 end Rtcm
